@@ -933,3 +933,71 @@ def pipe_parameter_columns(ctx):
             ctx.ob("set_entry_check_repeat/plain/row-r-carries-entry-r", "ensures",
                    [n_e >= 1, rr >= 0, rr < n_e, tot == n_e] + list(pp_[0].facts) + [pp_[0].cond()],
                    K.eq_val(pit.f(rr, B_LENGTH), ent.f(rr)))
+
+
+@unit("C02", "pipe_sections/diameter_columns", functions=[BWI_ + ":BranchWInternalsComponent.create_pit_branch_entries"], engine="E3")
+def pipe_diameter_columns(ctx):
+    """base class of the sectioned components: every section of element i carries D = inner_diameter_mm[i] / 1000, the lumped
+    loss coefficient of the element, the element's label and activity flag; DO is the outer diameter where given, else the inner
+    one (that the user's column is copied before NaNs are filled is the frame obligation of C12)"""
+    ctx.assume("A1", "A3", "A4", "A6", "A7")
+    cref = S.get_module(PCM_).classes["Pipe"]
+    NP_, NBS = z3.Int("NPIPE"), z3.Int("NSEC")
+    cols = {"inner_diameter_mm": "f", "outer_diameter_mm": ("f", True), "loss_coefficient": "f", "in_service": "b"}
+    secs = K.sym_arr("sections", NP_, "i")
+    calls = []
+    B_D_, B_DO_, B_LC_, B_EI, B_ACT, B_AREA_ = (K.const(BR, x) for x in ("D", "DO", "LOSS_COEFFICIENT", "ELEMENT_IDX", "ACTIVE", "AREA"))
+    BM_ = "pandapipes.component_models.abstract_models.branch_models"
+
+    def c_set(ev, a, k):
+        calls.append({"col": a[1], "entry": a[2], "rep": a[3]})
+        ev.path.notes.append(("set", calls[-1]))
+        return None
+
+    def mk():
+        net = K.NetObj({"pipe": K.sym_table("pipe", NP_, cols),
+                        "_options": {"transient": False, "simulation_time_step": 0},
+                        "_lookups": {"node_from_to": {"pipe_nodes": (z3.Int("f_pn"), z3.Int("t_pn"))}}})
+        return [cref, net, K.sym_pit("branch_pit", z3.Int("NB"), NCB)], {}
+    try:
+        paths = T.run_paths(ctx, BWI_ + ":BranchWInternalsComponent.create_pit_branch_entries", mk, contracts={
+            BM_ + ":BranchComponent.create_pit_branch_entries": lambda ev, a, k: (PitSlice(a[2], z3.Int("f_p"), z3.Int("f_p") + NBS),
+                                                                                  K.sym_pit("node_pit", z3.Int("NN"), NCN)),
+            PCM_ + ":Pipe.get_internal_branch_number": lambda ev, a, k: secs,
+            CTB_ + ":set_entry_check_repeat": c_set})
+    except Unsupported as e:
+        ctx.undecided("subset", "unsupported", str(e))
+        return
+    normal = [p for p in paths if p.exc is None and [d for t_, d in p.notes if t_ == "set"]]
+    ctx.decided("paths", "cover", len(normal) >= 1 and all(p.exc is None for p in paths), witness=str([str(p.exc) for p in paths]))
+    tbl = K.sym_table("pipe", NP_, cols)
+    i = z3.Int("i!pipe")
+    for kx, p in enumerate(normal):
+        seen = {}
+        for t_, d in p.notes:
+            if t_ == "set":
+                seen[d["col"]] = d
+        ctx.decided("columns-filled#%d" % kx, "ensures", set(seen) >= {B_D_, B_DO_, B_LC_, B_EI, B_ACT}, witness=str(sorted(str(c) for c in seen)))
+        base = [NP_ >= 1, i >= 0, i < NP_, p.cond()] + list(p.facts)
+        inner = V.R(SP.div(tbl.columns["inner_diameter_mm"].f(i), 1000))
+        if B_D_ in seen:
+            ctx.ob("D/value-per-element#%d" % kx, "ensures", base, K.eq_val(seen[B_D_]["entry"].f(i), inner))
+        if B_LC_ in seen:
+            ctx.ob("LC/value-per-element#%d" % kx, "ensures", base, K.eq_val(seen[B_LC_]["entry"].f(i), tbl.columns["loss_coefficient"].f(i)))
+        if B_EI in seen:
+            ctx.ob("ELEMENT_IDX/label-per-element#%d" % kx, "ensures", base, K.eq_val(seen[B_EI]["entry"].f(i), tbl.index.f(i)))
+        if B_ACT in seen:
+            ctx.ob("ACTIVE/flag-per-element#%d" % kx, "ensures", base,
+                   B(compare("!=", seen[B_ACT]["entry"].f(i), 0)) == B(tbl.columns["in_service"].f(i)) if False else
+                   K.eq_val(seen[B_ACT]["entry"].f(i), ite(tbl.columns["in_service"].f(i), 1, 0)))
+        if B_DO_ in seen:
+            od = tbl.columns["outer_diameter_mm"].f(i)
+            e_ = seen[B_DO_]["entry"].f(i)
+            ctx.ob("DO/outer-where-given-else-inner#%d" % kx, "ensures", base,
+                   K.eq_val(val_of(e_), ite(nan_of(od), inner, V.R(SP.div(val_of(od), 1000)))))
+        for c in seen.values():
+            if c["rep"] is not secs:
+                ctx.decided("one-copy-per-section#%d" % kx, "ensures", False, witness=repr(c["rep"]))
+                break
+        else:
+            ctx.decided("one-copy-per-section#%d" % kx, "ensures", True)
